@@ -367,7 +367,7 @@ func (l pyList) Operator(operator Operator, operand pyObject) pyObject {
 		return slices.Clip(append(slices.Clip(l), l2...))
 	case In, NotIn:
 		for _, item := range l {
-			if item == operand {
+			if pyEqual(item, operand) { // not ==, which panics when both are lists or dicts
 				return newPyBool(operator == In)
 			}
 		}
